@@ -115,10 +115,18 @@ def sites(path):
 
 
 def sh(cmd, cwd=None, timeout=900, env=None):
+    # own session, so that a timeout kills the whole process group (a mutant may loop forever)
+    import signal
+    p = subprocess.Popen(cmd, shell=True, cwd=cwd, stdout=subprocess.PIPE, stderr=subprocess.STDOUT, text=True, env=env, start_new_session=True)
     try:
-        p = subprocess.run(cmd, shell=True, cwd=cwd, timeout=timeout, capture_output=True, text=True, env=env)
-        return p.returncode, p.stdout + p.stderr
+        out, _ = p.communicate(timeout=timeout)
+        return p.returncode, out
     except subprocess.TimeoutExpired:
+        try:
+            os.killpg(p.pid, signal.SIGKILL)
+        except ProcessLookupError:
+            pass
+        p.wait()
         return 124, "timeout"
 
 
@@ -187,7 +195,7 @@ def main():
             else:
                 result = "survived"
                 for c in checks:
-                    rc, o = sh(f"{VERIF}/harness/target/debug/check {c} --tier quick", cwd=VERIF, timeout=1500, env=env)
+                    rc, o = sh(f"{VERIF}/harness/target/debug/check {c} --tier quick", cwd=VERIF, timeout=600, env=env)
                     if rc == 1:
                         result, by = "killed", c
                         m = re.search(r"sub-check ([\w/]+)", o)
